@@ -462,6 +462,60 @@ fn suite_specop(g: &Gram, out: &mut Out, rng: &mut Rng) {
 
 /// C14: every callback position x {stop, error} on small well-formed and faulty binaries.
 fn suite_c14(g: &Gram, out: &mut Out, rng: &mut Rng, n_modules: usize) {
+    // "finalize only if the whole binary was parsed without error": for every enumeration / mask kind that some
+    // instruction takes directly, that instruction with an undeclared enumerant / an undeclared bit, between two OpNop
+    {
+        let gen = Gen { g };
+        crate::ggen::NO_CTX.with(|c| c.set(true));
+        let mut kinds: Vec<&String> = g.kinds.keys().collect();
+        kinds.sort();
+        for kind in kinds {
+            let bad: Vec<u32> = match &g.kinds[kind] {
+                KindG::ValueEnum { values } => { let mx = values.iter().map(|v| v.0).max().unwrap_or(0); vec![mx + 1, 0x7fff_fff0] }
+                KindG::BitEnum { all, .. } => { let free = !*all; if free == 0 { vec![] } else { vec![free & free.wrapping_neg(), 0x8000_0000 & free, (free & free.wrapping_neg()) | (*all & all.wrapping_neg())] } }
+                KindG::Other => vec![],
+            };
+            let Some((op, idx)) = site_of_kind(g, kind) else { continue };
+            for v in bad {
+                if v == 0 { continue; }
+                let mut ctx = Ctx::new();
+                let mut plan = Plan { optionals: Some(usize::MAX), variadic: Some(1), forced: Default::default() };
+                plan.forced.insert(idx, v);
+                let inst = gen.inst(op, rng, &mut ctx, &plan);
+                let mut ws: Vec<u32> = HEADER.to_vec();
+                ws.push(1 << 16);
+                ws.extend(inst.encode());
+                ws.push(1 << 16);
+                out.ev(parse_event(&ws, &[], &[], rng.chance(1, 2), "c14-badvalue"));
+            }
+        }
+        crate::ggen::NO_CTX.with(|c| c.set(false));
+    }
+    // "one call per instruction in stream order, then finalize" for EVERY opcode: the fullest form (all optional
+    // operands, two repetitions of a variadic one) and a random form, between two OpNop, parsed to the end and stopped
+    // right after the instruction
+    {
+        let gen = Gen { g };
+        for (&op, _) in &g.insts {
+            for full in [true, false] {
+                let mut ctx = Ctx::new();
+                let plan = if full { Plan { optionals: Some(usize::MAX), variadic: Some(2), forced: Default::default() } } else { Plan::random() };
+                let inst = gen.inst(op, rng, &mut ctx, &plan);
+                let mut ws: Vec<u32> = HEADER.to_vec();
+                for d in &ctx.decls { ws.extend(d.encode()); }
+                let pos = 2 + ctx.decls.len() + 1;   // initialize, header, declarations, OpNop come before the instruction's callback
+                ws.push(1 << 16);
+                ws.extend(inst.encode());
+                ws.push(1 << 16);
+                out.ev(parse_event(&ws, &[], &[], rng.chance(1, 2), "c14-sweep"));
+                if full {
+                    let mut s: Vec<String> = (0..pos + 1).map(|_| "C".to_string()).collect();
+                    s.push(rng.pick(&["S", "E"]).to_string());
+                    out.ev(parse_event(&ws, &[], &s, rng.chance(1, 2), "c14-sweep"));
+                }
+            }
+        }
+    }
     for _ in 0..n_modules {
         let (ws, starts) = random_module(g, rng, 3);
         let variants: Vec<(Vec<u32>, Vec<u8>, &str)> = {
@@ -565,6 +619,53 @@ fn c10_random(out: &mut Out, rng: &mut Rng, n: usize) {
     }
 }
 
+/// C10: "as propagated from the defining instruction's result type" -- for EVERY opcode of the pinned grammar that has a
+/// result type and a result id: a 64-bit / 16-bit / 128-bit integer type, a value defined by that opcode, and an OpSwitch
+/// on it whose case literals have the number of words the specification prescribes.
+fn c10_defops(g: &Gram, out: &mut Out, rng: &mut Rng) {
+    let gen = Gen { g };
+    crate::ggen::NO_CTX.with(|c| c.set(true));
+    for (&op, ig) in &g.insts {
+        if !(ig.ops.len() >= 2 && ig.ops[0].k == "IdResultType" && ig.ops[1].k == "IdResult") || g.has_context_kind(op) { continue; }
+        for (w, n) in [(64u32, 2i64), (16, 1), (128, 0)] {
+            let mut ctx = Ctx::new();
+            let mut inst = gen.inst(op, rng, &mut ctx, &Plan::random());
+            inst.rt = Some(1);
+            inst.rid = Some(2);
+            let mut ws: Vec<u32> = HEADER.to_vec();
+            let mut fresh = 100;
+            ws.extend(c10_inst(&json!({"a": "TInt", "id": 1, "w": w}), &mut fresh, 0, rng));
+            ws.extend(inst.encode());
+            let mut body = vec![2u32, 77];
+            for _ in 0..2 { for _ in 0..n.max(1) { body.push(rng.below(1000) as u32); } body.push(78); }
+            ws.push((((body.len() + 1) as u32) << 16) | 251);
+            ws.extend(body);
+            out.ev(parse_event(&ws, &[], &[], rng.chance(1, 2), "c10-defop"));
+        }
+    }
+    crate::ggen::NO_CTX.with(|c| c.set(false));
+}
+/// C10: "and the assembler emits the same number of words": OpConstant / OpSpecConstant / OpSwitch (0..3 cases) built as
+/// data under each declared width, assembled by the real assembler and parsed back after the declarations.
+fn c10_asm(out: &mut Out, rng: &mut Rng) {
+    for (is_int, w) in [(true, 8u32), (true, 16), (true, 32), (true, 64), (false, 16), (false, 32), (false, 64)] {
+        let ty = if is_int { SInst { op: 21, rt: None, rid: Some(1), ops: vec![SOp::one("LiteralBit32", w), SOp::one("LiteralBit32", rng.below(2) as u32)] } }
+                 else { SInst { op: 22, rt: None, rid: Some(1), ops: vec![SOp::one("LiteralBit32", w)] } };
+        let def = SInst { op: 1, rt: Some(1), rid: Some(2), ops: vec![] };
+        let lit = |rng: &mut Rng| if w == 64 { SOp { k: "LiteralBit64".into(), w: vec![rng.below(100000) as u32, rng.below(100000) as u32], s: None } } else { SOp::one("LiteralBit32", rng.below(100000) as u32) };
+        for op in [43u32, 50] {
+            let inst = SInst { op, rt: Some(1), rid: Some(3), ops: vec![lit(rng)] };
+            out.ev(asm_event(&inst, &[ty.clone()], "c10-asm"));
+        }
+        for cases in 0..4 {
+            let mut ops = vec![SOp::one("IdRef", 2), SOp::one("IdRef", 77)];
+            for _ in 0..cases { ops.push(lit(rng)); ops.push(SOp::one("IdRef", 78 + rng.below(5) as u32)); }
+            let inst = SInst { op: 251, rt: None, rid: None, ops };
+            out.ev(asm_event(&inst, &[ty.clone(), def.clone()], "c10-asm"));
+        }
+    }
+}
+
 /// C14 behaviours from MC_Protocol: {n, fault, answers} -> concrete binaries + scripted consumer.
 fn c14_behaviour(g: &Gram, out: &mut Out, rng: &mut Rng, b: &Value, reps: usize) {
     let gen = Gen { g };
@@ -660,6 +761,8 @@ pub fn drive(args: &[String]) {
                 }
             }
             c10_random(&mut out, &mut rng, n);
+            c10_defops(&g, &mut out, &mut rng);
+            c10_asm(&mut out, &mut rng);
         }
         "asm-replay" => {
             let f = std::io::BufReader::new(std::fs::File::open(arg(args, "--histories").expect("--histories")).unwrap());
